@@ -11,6 +11,7 @@ from vlib import tok, events
 class Run:
     def __init__(self, script_lines, rounds):
         self.lines = [l for l in script_lines if l.strip() and not l.startswith(("#", "feat", "mode"))]
+        self.realtime = any(l.startswith("mode realtime") for l in script_lines)
         self.rounds = rounds
         self.ops = {}          # oid -> dict(kind, target, tmo, round, tick, hook(bool))
         self.kills = []        # (round, target actor, by_hook)
@@ -247,7 +248,32 @@ def m_C03(run):
         join = tok(run.aline(L, a), "join=")
         if v == "pending" and join and join != "running":
             f.append("ask %d still pending although actor %d has ended (%s)" % (o, a, join))
+    # every round of a paused-clock run ends at quiescence: an ask can then only be pending if its
+    # target is inside a hook (the proviso of the property).  An idle loop that does not serve its
+    # mailbox, or does not notice that it should end, shows up here as a hang.
+    if not run.realtime:
+        for r in range(len(run.rounds)):
+            for o, m in run.ops.items():
+                if m["kind"] != "ask" or m["target"] is None or m["hook"]:
+                    continue
+                a = m["target"]
+                if run.res(r, o) != "pending":
+                    continue
+                join = tok(run.aline(r, a), "join=")
+                if join == "running" and not in_hook(run.ev(r, a)):
+                    f.append("ask %d still pending at the quiescent end of round %d although actor %d is idle (inside no hook)" % (o, r + 1, a))
+                    return f
     return f
+
+
+def in_hook(evs):
+    st = False
+    for e in evs:
+        if e == "SE" or e.startswith("HE") or e in ("ST0", "ST1"):
+            st = True
+        elif e.startswith(("SX:", "HX", "SP:", "DLK")):
+            st = False
+    return st
 
 
 # ------------------------------------------------------------------------------ C04
